@@ -185,7 +185,7 @@ func (st *SortTable) sortOf(t types.Type) string {
 		}
 		switch u := tt.Underlying().(type) {
 		case *types.Struct:
-			if !st.inRepo(tt.Obj().Pkg()) {
+			if !st.inRepo(tt.Obj().Pkg()) && !transparentExternal[tt.Obj().Pkg().Path()+"."+tt.Obj().Name()] {
 				return st.opaqueSort("O_" + shortTypeName(tt))
 			}
 			return st.structSort(shortTypeName(tt), u, tt)
@@ -459,4 +459,9 @@ func seqAxioms(S, E, zero string) string {
 (declare-fun sq_eqwit_$S ($S $S) Int)
 (assert (forall ((s $S) (t $S)) (! (=> (and (= (sq_len_$S s) (sq_len_$S t)) (=> (and (<= 0 (sq_eqwit_$S s t)) (< (sq_eqwit_$S s t) (sq_len_$S s))) (= (sq_at_$S s (sq_eqwit_$S s t)) (sq_at_$S t (sq_eqwit_$S s t))))) (= s t)) :pattern ((sq_eqwit_$S s t)))))
 `)
+}
+
+// library struct types whose fields the contracts need to read
+var transparentExternal = map[string]bool{
+	"net/http.Request": true,
 }
